@@ -410,6 +410,7 @@ class ConcurrentExecutor(ABC, Generic[CallableType, ResultType]):
         def run_in_child_handler():
             return self.execute_item(child_context, executable)
 
+        child_context.state.track_replay(operation_id=operation_id)
         result: ResultType = child_handler(
             run_in_child_handler,
             child_context.state,
@@ -420,7 +421,6 @@ class ConcurrentExecutor(ABC, Generic[CallableType, ResultType]):
                 summary_generator=self.summary_generator,
             ),
         )
-        child_context.state.track_replay(operation_id=operation_id)
         return result
 
     def replay(self, execution_state: ExecutionState, executor_context: DurableContext):
